@@ -24,17 +24,17 @@
 (*   next event end: the worklist is drained by steps that make no         *)
 (*        Context call (nodes over the step bound are deferred, nodes      *)
 (*        without out-edges visited), then Finish.                         *)
-(* Visits of a node WITHOUT out-edges make no call-back at all, so how     *)
-(* often such a node was visited before its value changed again depends on *)
-(* the (free) order.  Only the step bound can make that visible: the node  *)
-(* ends in the final worklist iff it was re-queued after its maxsteps-th   *)
-(* visit.  The trace specification resolves this by look-ahead to the      *)
-(* run's end event (variable endwl): a sink the solver reports as not      *)
-(* stabilised is visited as early as possible (whenever it is queued and   *)
-(* no node is being processed - the schedule with the most visits), every  *)
-(* other sink as late as possible (once, before Finish).  Both are         *)
-(* schedules of the machine; which one the solver's priority order         *)
-(* produced is not constrained.                                            *)
+(* C07 only bounds the number of visits from above and says nothing about  *)
+(* needless work, so the machine's two liberal actions are used as well:   *)
+(*   Requeue(s)  when the solver visits a node that the machine does not   *)
+(*        have queued (a re-visit without a change) - at most one per      *)
+(*        consumed event, and the visit still counts against the bound;    *)
+(*   PopDefer(v) for ANY queued node that the solver reports in its final  *)
+(*        worklist (look-ahead to the run's end event, variable endwl),    *)
+(*        whether or not the bound was reached - never for compute().      *)
+(* Visits of a node WITHOUT out-edges make no call-back at all; such a     *)
+(* node is visited once before Finish unless the solver reports it as not  *)
+(* stabilised (then it is deferred like any other).                        *)
 (* Rejections print <<"BAD", event index, code>>:                          *)
 (*   "edge?"    no such edge                                               *)
 (*   "input"    update_edge called with a value that is neither the        *)
@@ -42,12 +42,13 @@
 (*   "pending"  edge of another node / repeated edge while out-edges of    *)
 (*              the node being processed are still pending                 *)
 (*   "bound"    a node is processed more often than max_steps              *)
-(*   "notqueued" edge of a node that is not in the worklist                *)
+(*   "notqueued" edge of a node that has no value (cannot be queued)       *)
 (*   "merge"    a merge call that no step of the machine performs          *)
 (*   "dropped"  the solver returned although out-edges of the node being   *)
 (*              processed were never updated                               *)
 (*   "unprocessed" the solver returned although a node with out-edges is   *)
-(*              still queued (e.g. a changed node was not re-processed)    *)
+(*              still queued and not reported in the final worklist (e.g.  *)
+(*              a changed node was not re-processed)                       *)
 (*   "result"   final node values / worklist / stabilized flag differ from *)
 (*              the machine's, or the solver panicked                      *)
 (*   "order"    event out of place                                         *)
@@ -100,9 +101,6 @@ Active(k) == More /\ ~skip /\ Ev.ev = k
 \* compute() / compute_with_max_steps() is entered before the first call-back and before the end
 TStart == /\ (Active("edge") \/ Active("end")) /\ phase = "ready" /\ Start /\ Silent
 
-\* sinks (no out-edges) that the solver reports as not stabilised: visited as early as possible
-EagerSinks == {v \in wl : OutEdges(cfg, v) = {} /\ CanVisit(v) /\ v \in endwl}
-
 TEdge ==
   /\ Active("edge") /\ phase = "run"
   /\ LET e == Ev.e IN
@@ -116,9 +114,9 @@ TEdge ==
               ELSE Bad("input")
        ELSE IF cur # NoCur THEN
             IF cur.todo = {} THEN FinishNode /\ Silent ELSE Bad("pending")
-       ELSE IF EagerSinks # {} THEN PopVisit(Min(EagerSinks)) /\ Silent
        ELSE IF s \in wl THEN
             IF CanVisit(s) THEN PopVisit(s) /\ Silent ELSE Bad("bound")
+       ELSE IF val[s] # None THEN Requeue(s) /\ Silent      \* a re-visit without a change
        ELSE Bad("notqueued")
 
 \* the merge call that belongs to the preceding update_edge (either argument order; a solver may
@@ -143,11 +141,17 @@ TEnd ==
   /\ IF phase # "run" THEN Bad("order")
      ELSE IF cur # NoCur THEN
             IF cur.todo = {} THEN FinishNode /\ Silent ELSE Bad("dropped")
+     ELSE IF endwl \ (wl \cup unstable) # {} THEN
+            \* reported as not stabilised although the machine has it stable: re-queued needlessly and
+            \* then given up (possible with a bound only, and only for a node that has a value)
+            LET v == Min(endwl \ (wl \cup unstable)) IN
+            IF Bounded(cfg) /\ v \in Nodes(cfg) /\ val[v] # None THEN Requeue(v) /\ Silent ELSE Bad("result")
      ELSE IF wl # {} THEN
             LET m == Min(wl) IN
-            IF ~CanVisit(m) THEN PopDefer(m) /\ Silent
-            ELSE IF OutEdges(cfg, m) = {} THEN PopVisit(m) /\ Silent
-            ELSE Bad("unprocessed")
+            IF m \in endwl THEN (IF Bounded(cfg) THEN PopDefer(m) /\ Silent ELSE Bad("result"))
+            ELSE IF OutEdges(cfg, m) # {} THEN Bad("unprocessed")
+            ELSE IF CanVisit(m) THEN PopVisit(m) /\ Silent
+            ELSE Bad("result")
      ELSE IF EndOK(Ev) THEN Finish /\ Consume /\ UNCHANGED <<pend, skip, endwl>>
      ELSE Bad("result")
 
